@@ -21,7 +21,8 @@ C14_THEOREMS = ["Naunet.C14.run_inv", "Naunet.C14.reachable_inv", "Naunet.C14.st
                 "Naunet.C14.source_sink_eq", "Naunet.C14.setAllowed_eq_construct", "Naunet.C14.foldl_add_held"]
 C15_THEOREMS = ["Naunet.C15.dup_iff_earlier_equal", "Naunet.C15.dupIdx_iff", "Naunet.C15.dupIdx_sorted",
                 "Naunet.C15.remove_dups_one_representative", "Naunet.C15.dedup_spec", "Naunet.C15.key_isEquiv",
-                "Naunet.C15.findDup_fst", "Naunet.C15.F14_witness"]
+                "Naunet.C15.findDup_fst", "Naunet.C15.F14_witness", "Naunet.ReqEq.eqR_perm", "Naunet.ReqEq.eqR_count", "Naunet.ReqEq.eqR_hash",
+                "Naunet.ReqEq.eqR_window", "Naunet.ReqEq.eqR_refl", "Naunet.ReqEq.eqR_symm", "Naunet.ReqEq.eqR_trans_typed"]
 C14_RULE = ("edit histories over a small species alphabet: add / add-many / remove by index, index list, instance, instance "
             "list / set allowed / set required, random length up to 40 (quick) or 400 (thorough) plus (thorough) all op-kind "
             "sequences of length 3; after every step species, held reactions, sources and sinks are compared; the `naunet "
@@ -538,11 +539,12 @@ def run_c15(argv):
     from naunet.reactions import Reaction
     from naunet.reactiontype import ReactionType as RT
     tier, seed = tier_and_seed(argv)
-    chk = Check("C15", tier, seed, ["NaunetProps.C15"], C15_THEOREMS, C15_RULE)
+    chk = Check("C15", tier, seed, ["NaunetProps.C15", "NaunetProps.ReactionEq"], C15_THEOREMS, C15_RULE)
     chk.prove()
     rng = chk.rng
     ncases = 60 if tier == "quick" else 600
     reqs, pend = [], []
+    eq_reqs, eq_pend = [], []
     R = lambda re_, pr_, ty, tmin=-1.0, tmax=-1.0: {"re": re_, "pr": pr_, "tmin": tmin, "tmax": tmax, "type": ty}
     corpus = [
         [R(["H", "CO"], ["H2"], 100), R(["CO", "H"], ["H2"], 999), R(["H", "CO"], ["H2"], 102)],           # F14 witness
@@ -669,6 +671,26 @@ def run_c15(argv):
                 items.append([c, (0 if r["type"] == 999 else r["type"]) if mode is None else 1])
             reqs.append({"cmd": "dup", "items": items})
             pend.append((show, mode, dupidx, first_idx, kept))
+        # the equality and the hash key themselves, pair by pair, against the Lean model (`ReqEq.eqR`, `ReqEq.hashKey`)
+        if getattr(chk, "lean_ok", False) and len(lst) >= 2 and len(eq_reqs) < (40 if tier == "quick" else 400):
+            objs = net.reaction_list
+            distinct = []
+
+            def sid(sp):
+                for k, d in enumerate(distinct):
+                    if d == sp:
+                        return k
+                distinct.append(sp)
+                return len(distinct) - 1
+            recs = [{"re": [sid(x) for x in o.reactants], "pr": [sid(x) for x in o.products], "tmin": round(o.temp_min * 100),
+                     "tmax": round(o.temp_max * 100), "ty": int(o.reaction_type)} for o in objs]
+            idx = list(range(len(objs)))
+            pairs = [(a, b) for a in idx for b in idx if a < b]
+            if len(pairs) > 60:
+                pairs = rng.sample(pairs, 60)
+            impl = [[bool(objs[a] == objs[b]), hash(objs[a]) == hash(objs[b])] for a, b in pairs]
+            eq_reqs.append({"cmd": "reqeq", "reactions": recs, "pairs": [list(p) for p in pairs]})
+            eq_pend.append((show, pairs, impl))
         if n < 3:
             chk.sample({"reactions": show[:8], "default_mode_report": net.find_duplicate_reaction()[1]})
     if getattr(chk, "lean_ok", False) and reqs:
@@ -683,6 +705,25 @@ def run_c15(argv):
                                {"dupidx": dupidx, "first": first_idx, "kept": kept})
             else:
                 chk.traces += 1
+    if getattr(chk, "lean_ok", False) and eq_reqs:
+        try:
+            answers = lean_driver(eq_reqs)
+        except Exception as e:
+            chk.corr_break("driver", None, None, str(e)[:400])
+            answers = []
+        for (show, pairs, impl), ans in zip(eq_pend, answers):
+            if isinstance(ans, dict) and "error" in ans:
+                chk.corr_break("reaction-eq", show[:12], ans, None)
+                continue
+            bad = next(((p, m, i) for p, m, i in zip(pairs, ans, impl)
+                        if m[0] != i[0] or (m[1] and not i[1])), None)      # equal hash keys must hash alike (the converse is luck)
+            if bad:
+                (a, b), m, i = bad
+                chk.corr_break("reaction-eq", {"first": show[a], "second": show[b]}, {"equal": m[0], "same_hash_key": m[1]},
+                               {"equal": i[0], "same_hash": i[1]})
+            else:
+                chk.traces += 1
+                chk.hist["eq-hash-pairs"] += len(pairs)
     return chk.finish()
 
 
